@@ -14,6 +14,27 @@ Definition path_depth (v : verdict) : Z :=
 Definition too_deep (v : verdict) : Prop := 0 < v_maxdepth v /\ v_maxdepth v < path_depth v.
 Definition auth_failure (v : verdict) : Prop := internal_failure v \/ no_anchor v \/ too_deep v.
 
+(* every defect a chain has, named by the alert description that stands for it (from the property text: signature / issuer /
+   constraint problems, revocation, unknown CA, expiry, name).  [hn]: the certificate is not the last one of the chain. *)
+Definition cert_defects (c : certv) (hn : bool) : list Z :=
+  let s := cv_status c in
+  if s =? a_PS_CERT_AUTH_PASS then []
+  else if s =? a_PS_CERT_AUTH_FAIL_REVOKED then [a_SSL_ALERT_CERTIFICATE_REVOKED]
+  else if s =? a_PS_CERT_AUTH_FAIL_EXTENSION then
+    (if ext_other (cv_flags c) then [if hn then a_SSL_ALERT_BAD_CERTIFICATE else a_SSL_ALERT_ILLEGAL_PARAMETER] else []) ++
+    (if has_flag (cv_flags c) a_PS_CERT_AUTH_FAIL_SUBJECT_FLAG then [a_SSL_ALERT_CERTIFICATE_UNKNOWN] else []) ++
+    (if has_flag (cv_flags c) a_PS_CERT_AUTH_FAIL_DATE_FLAG then [a_SSL_ALERT_CERTIFICATE_EXPIRED] else [])
+  else if (s =? a_PS_CERT_AUTH_FAIL_BC) || (s =? a_PS_CERT_AUTH_FAIL_DN) then [if hn then a_SSL_ALERT_BAD_CERTIFICATE else a_SSL_ALERT_UNKNOWN_CA]
+  else [a_SSL_ALERT_BAD_CERTIFICATE].
+Fixpoint chain_defects (cs : list certv) : list Z :=
+  match cs with [] => [] | c :: rest => cert_defects c (has_next rest) ++ chain_defects rest end.
+Definition is_defect (v : verdict) (d : Z) : Prop :=
+  In d (chain_defects (v_chain v)) \/ (too_deep v /\ d = a_SSL_ALERT_UNKNOWN_CA) \/ (no_anchor v /\ d = a_SSL_ALERT_UNKNOWN_CA).
+(* severity: an application that tolerates the alert it is given (expiry on a device without a clock, a name it checks itself)
+   must not thereby tolerate a worse defect: expired < name mismatch < everything that breaks the trust path *)
+Definition severity (d : Z) : Z := rank d.
+Definition arg_severity (a : Z) : Z := if a =? 0 then 0 else rank a.      (* the callback's argument: 0 = nothing pending *)
+
 Definition continues (o : outcome) : bool := match o with Continue _ => true | Fatal _ => false end.
 
 (* the only two callback answers that let a handshake go on *)
